@@ -305,7 +305,19 @@ async def build_engine_async(schema, sdl=None, resolvers="all", typecfg=None, na
     register(schema, name, resolvers, typecfg, subscriptions, directive_impl=directive_impl)
     if typecfg.get("engine"):
         engine_kwargs["custom_default_type_resolver"] = _type_resolver("_t_engine")
-    return await create_engine(sdl if sdl is not None else S.print_sdl(schema), schema_name=name, **engine_kwargs)
+    route = engine_kwargs.pop("route", "create_engine")
+    text = sdl if sdl is not None else S.print_sdl(schema)
+    if route == "ctor":  # everything given to the constructor, a bare cook()
+        from tartiflette import Engine
+        e = Engine(text, schema_name=name, **engine_kwargs)
+        await e.cook()
+        return e
+    if route == "cook":  # a bare constructor, everything given to cook()
+        from tartiflette import Engine
+        e = Engine()
+        await e.cook(text, schema_name=name, **engine_kwargs)
+        return e
+    return await create_engine(text, schema_name=name, **engine_kwargs)
 
 
 def build_engine(schema, **kw):
